@@ -72,6 +72,14 @@ Proof.
   - intros y Hy. specialize (B2 y Hy). lia.
 Qed.
 
+(* the label sums that the code also forms outside the range-checked places (equality tests when a tree is started or extended) lie in the
+   same window, hence within i32 *)
+Lemma bnd_sum_in_range lx ly : Bnd lx ly -> 0 <= Phi lx ly -> forall x y, (x < nx)%nat -> (y < ny)%nat -> inr (getZ lx x + getZ ly y) = true.
+Proof.
+  intros B Hp x y Hx Hy. destruct (bnd_window lx ly B Hp) as [Bx By]. specialize (Bx x Hx). specialize (By y Hy). pose proof Wmax_nonneg.
+  unfold inr. apply andb_true_iff. split; apply Z.leb_le; unfold maxI, minI in *; nia.
+Qed.
+
 (* ---------------------------------------------------------------- scan *)
 Lemma fold_scan_no_overflow st : forall cells acc,
   (forall x y, In (x, y) cells -> eligible st x y = true ->
